@@ -137,81 +137,250 @@ func caseFromExt(args []vlib.Sx) (*res, error) {
 	return r, nil
 }
 
-// ---- case plain (oracle only): bcp47ToOtf on a tag WITHOUT an x extension.
-// This branch searches the tables for the tag's language and script with
-// `for key, val := range table { if val == x { ...; break } }`; the model does
-// not cover it (x/text's Raw and Script are needed).  The oracle checks that
-// the answer is a preimage: the OpenType tags returned stand for the tag's
-// language and script in the library's own tables.  Where several OpenType
-// tags share one BCP 47 value ("beng"/"bng2", "MAL "/"MLR ") the answer
-// depends on Go's map iteration order; this is counted (label plain:ambiguous),
-// not reported: such tags are outside the property's quantifier (the pairs of
-// the tables, which otfToBCP47 always marks with an x extension).
-func casePlain(args []vlib.Sx) (*res, error) {
-	if len(args) != 1 {
-		return nil, fmt.Errorf("plain: want 1 argument")
+// ---- case plain: bcp47ToOtf on a tag WITHOUT an x extension.  The case line
+// carries what x/text says of the tag (which the model takes as input):
+// whether it is language.Chinese / SimplifiedChinese / TraditionalChinese, the
+// string of its Raw language and of its Script.  Oracle: the answer is a
+// preimage (the OpenType tags returned stand for the tag's language and script
+// in the library's own tables) and it is a FUNCTION of the tag: repeated calls
+// agree (signature c14b-plain-tag-nondeterministic; before
+// fixes/C08-bcp47-plain-tag-deterministic.diff the answer depended on Go's map
+// iteration order wherever several OpenType tags share one BCP 47 value).
+
+type plainTag struct {
+	text         string
+	tag          language.Tag
+	special      int
+	lang, script string
+}
+
+func observePlain(text string) (plainTag, error) {
+	tag, err := language.Parse(text)
+	if err != nil {
+		return plainTag{}, fmt.Errorf("%q does not parse: %v", text, err)
+	}
+	if _, ok := tag.Extension('x'); ok {
+		return plainTag{}, fmt.Errorf("%q has an x extension", text)
+	}
+	pt := plainTag{text: text, tag: tag}
+	switch tag {
+	case language.Chinese:
+		pt.special = 1
+	case language.SimplifiedChinese:
+		pt.special = 2
+	case language.TraditionalChinese:
+		pt.special = 3
+	}
+	langTag, _, _ := tag.Raw()
+	scriptTag, _ := tag.Script()
+	pt.lang, pt.script = langTag.String(), scriptTag.String()
+	return pt, nil
+}
+
+func (pt plainTag) sx() []vlib.Sx {
+	return []vlib.Sx{vlib.Hex([]byte(pt.text)), vlib.Int(pt.special), vlib.Hex([]byte(pt.lang)), vlib.Hex([]byte(pt.script))}
+}
+
+// asPlain reads the four items of a plain tag and checks them against x/text.
+func asPlain(args []vlib.Sx) (plainTag, error) {
+	if len(args) != 4 {
+		return plainTag{}, fmt.Errorf("plain tag: want 4 items")
 	}
 	tb, err := vlib.AsBytes(args[0])
 	if err != nil {
+		return plainTag{}, err
+	}
+	pt, err := observePlain(string(tb))
+	if err != nil {
+		return plainTag{}, err
+	}
+	sp, err := vlib.AsInt(args[1])
+	if err != nil {
+		return plainTag{}, err
+	}
+	lb, err := vlib.AsBytes(args[2])
+	if err != nil {
+		return plainTag{}, err
+	}
+	sb, err := vlib.AsBytes(args[3])
+	if err != nil {
+		return plainTag{}, err
+	}
+	if sp != pt.special || string(lb) != pt.lang || string(sb) != pt.script {
+		return plainTag{}, fmt.Errorf("plain tag %q: x/text says (%d, %q, %q), the case line (%d, %q, %q)", pt.text, pt.special, pt.lang, pt.script, sp, lb, sb)
+	}
+	return pt, nil
+}
+
+const plainRepeats = 16
+
+func casePlain(args []vlib.Sx) (*res, error) {
+	pt, err := asPlain(args)
+	if err != nil {
 		return nil, err
-	}
-	tag, perr := language.Parse(string(tb))
-	if perr != nil {
-		return nil, fmt.Errorf("plain: %q does not parse: %v", tb, perr)
-	}
-	if _, ok := tag.Extension('x'); ok {
-		return nil, fmt.Errorf("plain: tag has an x extension")
 	}
 	r := &res{labels: []string{"kind:plain"}, nt: true}
 	scriptTable, langTable := gtab.VerifC14BScriptTable(), gtab.VerifC14BLangTable()
-	langTag, _, _ := tag.Raw()
-	scriptTag, _ := tag.Script()
-	answers := map[string]bool{}
-	for i := 0; i < 24; i++ {
+	// how many OpenType tags stand for the tag's language / script
+	nl, ns := 0, 0
+	for _, v := range langTable {
+		if v == pt.lang {
+			nl++
+		}
+	}
+	for _, v := range scriptTable {
+		if v == pt.script {
+			ns++
+		}
+	}
+	switch {
+	case pt.special != 0:
+		r.label("plain:chinese-special-case")
+	case nl > 1 || ns > 1:
+		r.label("plain:several-opentype-tags")
+	case nl == 0 || ns == 0:
+		r.label("plain:language-or-script-unknown")
+	default:
+		r.label("plain:one-opentype-tag")
+	}
+	answers := map[string]int{}
+	var first [2]string
+	for i := 0; i < plainRepeats; i++ {
 		var s, l string
 		var terr error
-		if p, msg := guard(func() { s, l, terr = gtab.VerifC14BBCP47ToOtf(tag) }); p {
+		if p, msg := guard(func() { s, l, terr = gtab.VerifC14BBCP47ToOtf(pt.tag) }); p {
 			r.impl = "panic"
-			r.failf("c14b-otf-tag-panic", "bcp47ToOtf(%v) panics: %s", tag, msg)
+			r.failf("c14b-otf-tag-panic", "bcp47ToOtf(%v) panics: %s", pt.tag, msg)
 			return r, nil
 		}
 		if terr != nil {
 			r.impl = "err"
-			r.failf("c14b-otf-plain-tag", "bcp47ToOtf(%v) fails: %v", tag, terr)
+			r.failf("c14b-otf-plain-tag", "bcp47ToOtf(%v) fails: %v", pt.tag, terr)
 			return r, nil
 		}
-		answers[s+"/"+l] = true
-		special := tag == language.Chinese || tag == language.SimplifiedChinese || tag == language.TraditionalChinese
-		if !special {
-			if s != "" && scriptTable[s] != scriptTag.String() {
-				r.failf("c14b-otf-plain-tag", "bcp47ToOtf(%v) = script %q, which stands for %q, not %q", tag, s, scriptTable[s], scriptTag)
+		if i == 0 {
+			first = [2]string{s, l}
+		}
+		answers[fmt.Sprintf("(%q, %q)", s, l)]++
+		if pt.special == 0 {
+			if s != "" && scriptTable[s] != pt.script {
+				r.failf("c14b-otf-plain-tag", "bcp47ToOtf(%v) = script %q, which stands for %q, not %q", pt.tag, s, scriptTable[s], pt.script)
 			}
-			if l != "" && langTable[l] != langTag.String() {
-				r.failf("c14b-otf-plain-tag", "bcp47ToOtf(%v) = language %q, which stands for %q, not %q", tag, l, langTable[l], langTag)
+			if l != "" && langTable[l] != pt.lang {
+				r.failf("c14b-otf-plain-tag", "bcp47ToOtf(%v) = language %q, which stands for %q, not %q", pt.tag, l, langTable[l], pt.lang)
+			}
+			if (s == "") != (ns == 0) || (l == "") != (nl == 0) {
+				r.failf("c14b-otf-plain-tag", "bcp47ToOtf(%v) = (%q, %q) with %d script and %d language tags standing for it", pt.tag, s, l, ns, nl)
 			}
 		}
 	}
+	r.impl = vlib.Str(vlib.L(vlib.Hex([]byte(first[0])), vlib.Hex([]byte(first[1]))))
 	if len(answers) > 1 {
-		r.label("plain:ambiguous")
-	} else {
-		r.label("plain:unique")
+		var as []string
+		for a, n := range answers {
+			as = append(as, fmt.Sprintf("%s x%d", a, n))
+		}
+		sort.Strings(as)
+		r.failf("c14b-plain-tag-nondeterministic", "bcp47ToOtf(%v) called %d times gives %d different answers: %s", pt.tag, plainRepeats, len(answers), strings.Join(as, ", "))
 	}
-	r.impl = vlib.Str(vlib.L(vlib.Atom("plain"), vlib.Int(len(answers))))
 	return r, nil
 }
 
-func genPlain(g *gen) {
-	seen := map[string]bool{}
+// ---- case slplain: ScriptListInfo.encode with plain tags as keys ----
+
+func caseSlPlain(args []vlib.Sx) (*res, error) {
+	if len(args) != 1 {
+		return nil, fmt.Errorf("slplain: want 1 argument")
+	}
+	l, err := vlib.AsList(args[0])
+	if err != nil {
+		return nil, err
+	}
+	r := &res{labels: []string{"kind:slplain"}, nt: len(l) >= 2}
+	type entry struct {
+		pt   plainTag
+		req  int
+		opts []int
+	}
+	var entries []entry
+	seen := map[language.Tag]bool{}
+	for _, e := range l {
+		p, err := vlib.AsList(e)
+		if err != nil || len(p) != 6 {
+			return nil, fmt.Errorf("bad slplain item")
+		}
+		pt, err := asPlain(p[:4])
+		if err != nil {
+			return nil, err
+		}
+		if seen[pt.tag] {
+			return nil, fmt.Errorf("slplain: key twice")
+		}
+		seen[pt.tag] = true
+		req, err := vlib.AsInt(p[4])
+		if err != nil || req < 0 || req > 65535 {
+			return nil, fmt.Errorf("bad required feature")
+		}
+		opts, err := vlib.AsInts(p[5])
+		if err != nil {
+			return nil, err
+		}
+		entries = append(entries, entry{pt, req, opts})
+	}
+	r.label("slplain:items<=" + sizeClass(len(entries)))
+	build := func() gtab.ScriptListInfo {
+		info := gtab.ScriptListInfo{}
+		for _, e := range entries {
+			ff := &gtab.Features{Required: gtab.FeatureIndex(e.req)}
+			for _, o := range e.opts {
+				ff.Optional = append(ff.Optional, gtab.FeatureIndex(o))
+			}
+			info[e.pt.tag] = ff
+		}
+		return info
+	}
+	var firstBytes []byte
+	for i := 0; i < 8; i++ {
+		var data []byte
+		if p, msg := guard(func() { data = gtab.VerifC14BEncodeScriptList(build()) }); p {
+			r.impl = "panic"
+			r.failf("c14b-scriptlist-panic", "ScriptListInfo.encode panics on plain-tag keys: %s", msg)
+			return r, nil
+		}
+		if i == 0 {
+			firstBytes = data
+			continue
+		}
+		if string(data) != string(firstBytes) {
+			r.failf("c14b-plain-tag-nondeterministic", "ScriptListInfo.encode of the same value gives different bytes (call 1: %x, call %d: %x)", firstBytes, i+1, data)
+			break
+		}
+	}
+	r.impl = vlib.Str(vlib.L(vlib.Atom("ok"), vlib.Hex(firstBytes)))
+	// the bytes hold one language system per key, under the tags bcp47ToOtf names
+	if got, ok := parseScriptList(firstBytes); !ok {
+		r.failf("c14b-scriptlist-bytes", "independent reader: the encoded script list is malformed")
+	} else if len(got) != len(entries) {
+		r.failf("c14b-scriptlist-bytes", "independent reader: %d language systems in the bytes, %d keys", len(got), len(entries))
+	}
+	return r, nil
+}
+
+func plainLine(pt plainTag) string {
+	return vlib.Line(append([]vlib.Sx{vlib.Atom("plain")}, pt.sx()...)...)
+}
+
+func genPlain(g *gen, r *vlib.Rand) {
+	seen := map[language.Tag]bool{}
+	var all []plainTag
 	add := func(s string) {
-		t, err := language.Parse(s)
-		if err != nil || seen[t.String()] {
+		pt, err := observePlain(s)
+		if err != nil || seen[pt.tag] {
 			return
 		}
-		if _, ok := t.Extension('x'); ok {
-			return
-		}
-		seen[t.String()] = true
-		g.add("!" + vlib.Line(vlib.Atom("plain"), vlib.Hex([]byte(s))))
+		seen[pt.tag] = true
+		all = append(all, pt)
+		g.add(plainLine(pt))
 	}
 	var lv, sv []string
 	for _, v := range gtab.VerifC14BLangTable() {
@@ -228,13 +397,57 @@ func genPlain(g *gen) {
 	for _, v := range sv {
 		add("und-" + v)
 	}
-	for _, s := range []string{"zh", "zh-Hans", "zh-Hant", "de-Latn", "bn-Beng", "ml-Mlym", "hi-Deva", "und", "en-US", "sr-Cyrl"} {
+	for _, s := range []string{"zh", "zh-Hans", "zh-Hant", "zh-Hani", "zh-TW", "de-Latn", "bn-Beng", "ml-Mlym", "hi-Deva", "und", "en-US",
+		"sr-Cyrl", "ja", "tlh", "und-Zsym", "qaa-Qaaa", "mo", "el-polyton"} {
 		add(s)
+	}
+	// script lists keyed by plain tags: pairwise distinct (script, language)
+	// answers with a script the tables know (what a font file can hold)
+	type usable struct {
+		pt   plainTag
+		s, l string
+	}
+	var us []usable
+	for _, pt := range all {
+		s, l, err := gtab.VerifC14BBCP47ToOtf(pt.tag)
+		if err == nil && len(s) == 4 && (len(l) == 4 || (l == "" && pt.lang == "und")) {
+			us = append(us, usable{pt, s, l})
+		}
+	}
+	n := vlib.Count(g.tier, 120, 3000)
+	for i := 0; i < n && len(us) > 0; i++ {
+		var items vlib.List
+		pairs := map[string]bool{}
+		for k := r.Range(1, 6); k > 0; k-- {
+			u := vlib.Pick(r, us)
+			if i%3 == 0 { // favour the tags with several OpenType spellings
+				for _, t := range []string{"bn-Beng", "ml-Mlym", "hi-Deva", "und-Beng", "und-Mlym", "ml", "bn"} {
+					if r.Chance(1, 4) {
+						if pt, err := observePlain(t); err == nil {
+							if s, l, err := gtab.VerifC14BBCP47ToOtf(pt.tag); err == nil && len(s) == 4 && (len(l) == 4 || pt.lang == "und") {
+								u = usable{pt, s, l}
+							}
+						}
+						break
+					}
+				}
+			}
+			// the pair may differ from call to call on the unrepaired code: key the
+			// exclusion on the BCP 47 values instead
+			key := u.pt.lang + "/" + u.pt.script
+			if pairs[key] {
+				continue
+			}
+			pairs[key] = true
+			req, opts := randFeatures(r)
+			items = append(items, vlib.List(append(u.pt.sx(), vlib.Int(req), vlib.Ints(opts))))
+		}
+		g.add(vlib.Line(vlib.Atom("slplain"), items))
 	}
 }
 
 func genTags(g *gen, r *vlib.Rand) {
-	genPlain(g)
+	genPlain(g, r.Fork("plain"))
 	pair := func(sc, la string) {
 		g.add(vlib.Line(vlib.Atom("otf"), vlib.Hex([]byte(sc)), vlib.Hex([]byte(la))))
 	}
